@@ -1,6 +1,7 @@
 """C07 quantile sketches: weights, extremes, coherent answers (DESIGN.md section 5 C07): structural clauses."""
 import quantile_rules as Q
 import cowrite
+import generic_lints
 
 
 def run(facts, tier):
@@ -11,6 +12,7 @@ def run(facts, tier):
         ("cache invalidation", Q.cache_invalidation, 9, "every public mutator invalidates the cached sorted view on every data-modifying path"),
         ("compaction triggers", Q.compaction_triggers, 2, "compaction triggers include the capacity boundary"),
         ("couplings", lambda fa: cowrite.obligations(fa, ['kll_sketch', 'req_sketch', 'quantiles_sketch']), 10, "fields that every mutator updates together (counters, extremes, cached values) are still updated together"),
+        ("duplicate operands", lambda fa: generic_lints.duplicate_conjuncts(fa, ('kll/', 'req/', 'quantiles/', 'common/')), 2, "no logical chain tests the same operand twice (copy-paste of the wrong peer)"),
     ):
         o = f(facts)
         obs += o
